@@ -141,6 +141,15 @@ Theorem C15_no_unprotected_access : forall f, no_unprotected_access f = true.
 Proof. exact lockset_all. Qed.
 Print Assumptions C15_no_unprotected_access.
 
+(** ... and the coupled state (tree and the incrementally maintained leaf
+    counters) is written only under the target's write lock, held exclusively:
+    what a location-wise lockset cannot express (a recount by the periodic
+    UpdateSize under the metadata mutex alone passes the lockset and loses
+    updates: [recount_outside_wmu_refuted]) *)
+Theorem C15_coupled_writes_serialised : coupled_writes_serialised accesses = true.
+Proof. exact coupled_writes_all. Qed.
+Print Assumptions C15_coupled_writes_serialised.
+
 (** soundness of the executable specification used on the implementation's
     exported statistics (tag 6) *)
 Theorem C15_K_latency_sound : forall S p st,
